@@ -55,3 +55,42 @@ package connection
 //@     do writes = writes + 1
 //@   ensures[C15:write-count] err == nil ==> count == len(bs) && writes == 1
 //@   ensures[C15:write-error] err != nil ==> count == 0
+
+// ---- the bridge handler (C15): each bridged connection gets its own frame codec state and its own backend socket ----
+// Requests that are not bridge upgrades go to the passthrough handler untouched. A bridged connection wraps exactly the
+// upgraded websocket in a fresh WebsocketNetConn (nothing shared with other connections), dials the configured local
+// port, and copies each direction once between exactly these two ends.
+//@ func Handler$1 props(C15,C07)
+//@   requires w != nil && r != nil && r.URL != nil && passthroughHandler != nil
+//@   ghost passed int = 0
+//@   ghost dials int = 0
+//@   ghost ups int = 0
+//@   ghost ws *websocket.Conn = nil
+//@   call (http.Handler).ServeHTTP
+//@     assert[C15:other-requests-pass-through-untouched] passed == 0 && ups == 0 && arg0 == passthroughHandler && arg1 == old(w) && arg2 == old(r)
+//@     do passed = passed + 1
+//@   call (*websocket.Upgrader).Upgrade
+//@     assert[C15:upgrade-this-request-once] ups == 0 && passed == 0 && arg1 == old(w)
+//@     do ups = ups + 1
+//@     do ws = ret0
+//@   call net.Dial
+//@     assert[C15:dial-the-configured-local-port] dials == 0 && ups == 1 && arg0 == "tcp" && arg1 == backendHost && frontendConn != nil && !allocated0(frontendConn) && frontendConn.Conn == ws && len(frontendConn.bufferedMsg) == 0
+//@     do dials = dials + 1
+//@   go Handler$1$1
+//@     assert[C15:client-to-backend-copy-between-this-pair] dials == 1 && frontendConn.Conn == ws
+//@   go Handler$1$2
+//@     assert[C15:backend-to-client-copy-between-this-pair] dials == 1 && frontendConn.Conn == ws
+//@ func Handler$1$1 props(C15,C07)
+//@   requires frontendConn != nil
+//@   ghost copies int = 0
+//@   call io.Copy
+//@     assert[C15:copy-client-bytes-to-the-backend] copies == 0 && arg0 == backendConn && arg1 == box(frontendConn)
+//@     do copies = copies + 1
+//@   ensures[C15:one-copy-loop-per-direction] copies == 1
+//@ func Handler$1$2 props(C15,C07)
+//@   requires frontendConn != nil
+//@   ghost copies int = 0
+//@   call io.Copy
+//@     assert[C15:copy-backend-bytes-to-the-client] copies == 0 && arg0 == box(frontendConn) && arg1 == backendConn
+//@     do copies = copies + 1
+//@   ensures[C15:one-copy-loop-per-direction] copies == 1
